@@ -117,7 +117,7 @@ def _ctxs(rep, g, scn, decl, seed):
 
 
 def check_layout(rep, g, seed):
-    HARNESS.prefetch(g, ["offsets", "compose", "inverse", "log", "exp", "tan", "act"])
+    HARNESS.prefetch(g, ["offsets", "compose", "compose_subsets", "inverse", "log", "exp", "tan", "act"])
     # ---- offsets and views
     for c in _ctxs(rep, g, "offsets", [("x", "G"), ("t", "T")], seed):
         sp = c.spec
@@ -141,6 +141,11 @@ def check_layout(rep, g, seed):
         _concat(c, sp, "out", "rep", "compose")
         _blocks(c, sp, "Ja", "dof", "dof", "compose_Ja")
         _blocks(c, sp, "Jb", "dof", "dof", "compose_Jb")
+    for c in _ctxs(rep, g, "compose_subsets", [("x", "G"), ("y", "G")], seed):
+        sp = c.spec
+        _concat(c, sp, "out", "rep", "compose_only_Ja")
+        _blocks(c, sp, "Ja", "dof", "dof", "compose_only_Ja_requested")
+        _blocks(c, sp, "Jb", "dof", "dof", "compose_only_Jb_requested")
     for c in _ctxs(rep, g, "inverse", [("x", "G")], seed):
         sp = c.spec
         _concat(c, sp, "out", "rep", "inverse")
